@@ -74,6 +74,17 @@ def build_lookup_formulas():
             args = ''.join(',' + x for x in (mm, sm) if x is not None)
             put(f'=XMATCH(K1,A1:A{n}{args})', {'func': 'XMATCH', 'mode': 'exact' if (mm in (None, '0')) else 'unjudged',
                                                'mode_arg': mm or 'omitted', 'search': sm or 'omitted'})
+        # the same table on its own sheet L (keys overridden there too; rows n+1..4 of column A stay blank):
+        # whole-column areas and areas with trailing blank rows
+        for mode, kind in VMODES[:3]:
+            m = f',{mode})' if mode else ')'
+            put(f'=VLOOKUP(K1,L!A:C,3{m}', {'func': 'VLOOKUP', 'mode': kind, 'mode_arg': mode or 'omitted', 'width': 3, 'col': 3, 'area': 'whole-columns'})
+            put(f'=VLOOKUP(K1,L!A1:C4,2{m}', {'func': 'VLOOKUP', 'mode': kind, 'mode_arg': mode or 'omitted', 'width': 3, 'col': 2, 'area': 'trailing-blanks'})
+            put(f'=MATCH(K1,L!A:A{m}', {'func': 'MATCH', 'mode': kind, 'mode_arg': mode or 'omitted', 'area': 'whole-column'})
+            put(f'=MATCH(K1,L!A1:A4{m}', {'func': 'MATCH', 'mode': kind, 'mode_arg': mode or 'omitted', 'area': 'trailing-blanks'})
+        put('=XMATCH(K1,L!A:A)', {'func': 'XMATCH', 'mode': 'exact', 'mode_arg': 'omitted', 'search': 'omitted', 'area': 'whole-column'})
+        put('=XMATCH(K1,L!A:A,0,-1)', {'func': 'XMATCH', 'mode': 'exact', 'mode_arg': '0', 'search': '-1', 'area': 'whole-column'})
+        put('=INDEX(L!B:B,MATCH(K1,L!A:A,0))', {'func': 'INDEX-MATCH', 'mode': 'exact', 'area': 'whole-column'})
         put(f'=INDEX(B1:B{n},MATCH(K1,A1:A{n},0))', {'func': 'INDEX-MATCH', 'mode': 'exact'})
         put(f'=INDEX(A1:C{n},MATCH(K1,A1:A{n},0),3)', {'func': 'INDEX-MATCH', 'mode': 'exact', 'col': 3})
         row += 1
@@ -81,7 +92,7 @@ def build_lookup_formulas():
 
 
 LOOKUP_CELLS, LOOKUP_META = build_lookup_formulas()
-LOOKUP_SCAFFOLD = [('S', LOOKUP_CELLS)]
+LOOKUP_SCAFFOLD = [('S', LOOKUP_CELLS), ('L', {f'{c}{r}': val(r, k) for r in range(1, 5) for c, k in (('B', 2), ('C', 3))})]
 
 
 def classify(keys):
@@ -156,7 +167,7 @@ def run_lookup_ov(cases, stats):
     for i, c in enumerate(cases):
         keys, v = c['keys'], c['v']
         n = len(keys)
-        ov = [(f'A{r + 1}', k) for r, k in enumerate(keys)] + [('K1', v)]
+        ov = [(f'A{r + 1}', k) for r, k in enumerate(keys)] + [('K1', v)] + [(('L', f'A{r + 1}'), k) for r, k in enumerate(keys)]
         addrs = [a for a, _ in LOOKUP_META[n]]
         outs = S.run(cls, ov, addrs, stats)
         for (a, d), o in zip(LOOKUP_META[n], outs):
